@@ -671,6 +671,19 @@ def fam_teardown(g, prefix, n_random):
     for n in ("2", "3", "0"):
         g.tag = 0
         add([["counter", "k"], ["sub", ["retry", n, ["flaky", "0", "k", [n_(1), e_(5)], [n_(2), e_(5)], [n_(3), C_]]], NOREACT]])
+    # a failed attempt that still has a LIVE input (a multi-input operator under a recovery operator): the next attempt /
+    # the replacement pushes into that input's subject while it is being subscribed (ready_set_go): the abandoned
+    # attempt's tap must not fire any more
+    for c in ("merge", "zip", "amb", "combine_latest"):
+        g.tag = 0
+        failed = g.combine_named(c, ["tap", "9", ["ref", "a"]], [g.cold([e_(5)])], hot=("a",))
+        add([["subject", "a", "plain"], ["def", "y", ["rsg", [["hnext", "a", "7"]], ["just", "8"]]],
+             ["sub", ["on_error_resume_next", ["rs_ref", "y"], failed], NOREACT], ["hnext", "a", "6"]])
+        g.tag = 0
+        attempt = g.combine_named(c, ["tap", "9", ["ref", "a"]], [["rsg", [["hnext", "a", "7"]], ["flaky", "0", "k", [e_(5)], [n_(1), C_]]]], hot=("a",))
+        add([["subject", "a", "plain"], ["counter", "k"], ["sub", ["retry", "2", attempt], NOREACT], ["hnext", "a", "6"]])
+        g.tag = 0
+        add([["subject", "a", "plain"], ["counter", "k"], ["sub", ["retry_when", "tt", attempt], NOREACT], ["hnext", "a", "6"]])
     # two hot inputs that BOTH keep emitting after the operator took its decision (switched away, winner chosen, gate
     # opened / closed), then every way of ending: neither subject may hold an observer of this subscription afterwards
     for c in ("switch_on_next", "amb", "take_until", "skip_until", "sample", "merge", "zip", "concat", "combine_latest", "sequence_equal"):
